@@ -581,8 +581,12 @@ class PropBase:
         ev = {'property_id': pid, 'tier': self.tier, 'seed': self.seed, 'level': 'proof', 'coverage': cov,
               'assumptions': list(self.ASSUMPTIONS), 'wall_s': round(wall, 2),
               'violations': len(new) if self.breaks else 0}
-        os.makedirs(os.path.join(VERIF, 'evidence'), exist_ok=True)
-        with open(os.path.join(VERIF, 'evidence', '%s.json' % pid), 'w') as f:
+        # evidence/ only ever describes runs against /repo itself; runs against another tree (mutation
+        # testing via SCMO_REPO) write under build/
+        evdir = os.path.join(VERIF, 'evidence') if os.path.realpath(REPO) == '/repo' else os.path.join(BUILD, 'evidence_alt')
+        os.makedirs(evdir, exist_ok=True)
+        ev['coverage']['repo'] = REPO
+        with open(os.path.join(evdir, '%s.json' % pid), 'w') as f:
             json.dump(ev, f, indent=1, default=str)
         for l in lines:
             print(l)
